@@ -352,7 +352,22 @@ func (r *Runner) exec(c model.Call) model.Obs {
 		w.SetSerialTx(true)
 		defer w.SetSerialTx(false)
 		var marks []int
-		sent, marks, err = streamSession(w.Sub, ctx, reqs)
+		if c.Op.Tgt == "later-ack-mixed" {
+			// one follow-up request acknowledges ids obtained elsewhere (an earlier
+			// Pull) FIRST and then everything this very stream has delivered so far
+			sent, marks, err = streamSessionDyn(w.Sub, ctx, []func([]*pubsubpb.ReceivedMessage) *pubsubpb.StreamingPullRequest{
+				func([]*pubsubpb.ReceivedMessage) *pubsubpb.StreamingPullRequest { return first },
+				func(got []*pubsubpb.ReceivedMessage) *pubsubpb.StreamingPullRequest {
+					ids := append([]string{}, c.AckIDs...)
+					for _, rm := range got {
+						ids = append(ids, rm.AckId)
+					}
+					return &pubsubpb.StreamingPullRequest{AckIds: ids}
+				},
+			})
+		} else {
+			sent, marks, err = streamSession(w.Sub, ctx, reqs)
+		}
 		if status.Code(err) == codes.Canceled || errors.Is(err, context.Canceled) {
 			err = nil // the harness ended the stream
 		}
